@@ -827,6 +827,9 @@ def model(ir, tape, faults):
                     stmt(["chk", st[3]], env)
                     ev.append([num(st[2]), num(n_), s("ok"), num(n_), num(n_)])
                 except Thrown as t_:
+                    if pend_exc[0] > 0:
+                        # reached from a finally block that runs with a pending exception: a catch that catches clears the VM-wide flag
+                        taint.add("K-try-inside-pending-finally")
                     ev.append([num(st[2]), num(n_), t_.enc_type, num(n_), num(3 * n_ + 7)])
         elif k == "lam":
             ev.append([num(st[1]), num(st[1] + 1)])
